@@ -14,17 +14,17 @@ package main
 
 import (
 	"fmt"
-	"os"
 	"go/token"
 	"go/types"
+	"os"
 	"strings"
 
 	"golang.org/x/tools/go/ssa"
 )
 
 type relProver struct {
-	e       *e4Engine
-	budget  int
+	e        *e4Engine
+	budget   int
 	assumeLo map[ssa.Value]int64
 	visiting map[string]bool
 }
